@@ -53,6 +53,34 @@ CHECKS = {
              'and the built graphs compared.',
         note="Trusted: vf.canon 'cfg-defaults'; leaves without cross-type equality.",
         design='§3 C06'),
+    'C07': dict(
+        category='exploration',
+        technique='id-set algebra over identity-bearing objects of original and copy + frame '
+                  'conditions under post-copy edit sequences on either side',
+        text='Held on generated configurations for six copy kinds and random edit sequences; '
+             'identity sets are computed by an independent walk of the five Buildable dunders.',
+        note='Trusted: vf.canon, Python copy/pickle semantics for leaf values.',
+        design='§3 C07'),
+    'C08': dict(
+        category='exploration',
+        technique='independent reference walker enumerates all (path, object) pairs; streams of '
+                  'every traversal API compared as multisets/sets; identity rebuilds compared by '
+                  'canonical form; injected reference cycles must end in an exception',
+        text='Held on generated structures (sharing, positional Buildable arguments, named '
+             'tuples, defaultdicts, temporaries) and on cyclic variants (non-termination would '
+             'trip the shard watchdog = inconclusive).',
+        note='Trusted: the reference child enumeration per type; paths are normalised through '
+             'it, so an equivalent spelling of a path is accepted.',
+        design='§3 C08'),
+    'C09': dict(
+        category='exploration',
+        technique='round-trip monitor with strict JSON parse, invocation trace during load, '
+                  'recording PyrefPolicy and importlib proxy; hostile-document workload under a '
+                  'restrictive policy with a side-effecting module as canary',
+        text='Held on generated values with hostile leaves and on mutated documents; lossy leaf '
+             'classes are diagnosed causally (each leaf re-serialized alone).',
+        note='Trusted: json.loads(parse_constant=reject) as RFC 8259 oracle; vf.canon lossless labels.',
+        design='§3 C09'),
     'C03': dict(
         category='exploration',
         technique='lock-step reference-model monitor (ArgModel) over generated edit histories '
